@@ -96,6 +96,9 @@ Definition run_case (c : case) : result :=
   | 34 => let! a := val c 0 in let! b := val c 1 in Ok [IN (b2n (x_eq a b))]
   | 35 => let! a := val c 0 in let! b := val c 1 in Ok [IN (cmp2n (x_cmp a b))]
   | 36 => let! x := val c 0 in Ok [IN (b2n (xlen x =? 0))]
+  | 37 => let! a := val c 0 in let! b := val c 1 in
+          let! ha := x_hash P a in let! hb := x_hash P b in
+          Ok [IN (b2n (x_eq a b)); IL (flatten_pairs ha); IL (flatten_pairs hb)]
   (* ---- edits *)
   | 40 => let! x := val c 0 in ret_v (x_set P x (arg c 0) (arg c 1))
   | 41 => let! x := val c 0 in ret_v (x_push P x (arg c 0))
